@@ -52,7 +52,7 @@ var subcommands = []subcommand{
 func init() {
 	subcommands = append(subcommands, subcommand{
 		name:  "all",
-		short: "run grammar, tables, effects, options, failnames in sequence (exit code = max)",
+		short: "run grammar, tables, effects, options, failnames, golite in sequence (exit code = max)",
 		run:   runAll,
 	})
 	subcommands = append(subcommands, subcommand{
